@@ -277,6 +277,8 @@ class ATP_Store:
                         self.atp = 0
                     elif energy_type == EnergyType.GTP:
                         self.gtp = 0
+                    else:
+                        self.nadh = 0
 
                     if not self.silent:
                         print(f"💳 [Metabolism] Energy debt: +{deficit} (total: {self._debt})")
